@@ -717,8 +717,14 @@ def k_alias_dup_header(f, rng):
 # ---- instances / lists ---------------------------------------------------------------------------------------
 @kind("instance-id-clash", 3)
 def k_instance_clash(f, rng):
-    which = rng.randrange(3)
-    if which == 0:
+    which = rng.randrange(4)
+    if which == 3:
+        # two select-from-file questions whose files share the stem (= the instance id) but not the extension (= the URI)
+        nm = fresh(f, "cities")
+        e1, e2 = rng.sample([".csv", ".xml", ".geojson"], 2)
+        add_row_somewhere(f, rng, Row("q", f"{pick(rng, ['select_one_from_file', 'select_multiple_from_file'])} {nm}{e1}", fresh(f, "sfa"), {"label": "A"}))
+        add_row_somewhere(f, rng, Row("q", f"{pick(rng, ['select_one_from_file', 'select_multiple_from_file'])} {nm}{e2}", fresh(f, "sfb"), {"label": "B"}))
+    elif which == 0:
         nm = fresh(f, "extfile")
         add_row_somewhere(f, rng, Row("q", "xml-external", nm, {}))
         add_row_somewhere(f, rng, Row("q", f"select_one_from_file {nm}.csv", fresh(f, "sff"), {"label": "L"}))
@@ -821,6 +827,20 @@ def k_omit_id(f, rng):
     f.settings["omit_instanceID"] = pick(rng, ["yes", "true", "Yes"])
     f.settings["public_key"] = "MIIBIjANBgkqhkiG9w0BAQEFAAOCAQ8A"
     return Exp(r"Cannot omit instanceID, it is required for encryption", "sheet", name="instanceID")
+
+
+@kind("save-to-inside-repeat", 2)
+def k_saveto_in_repeat(f, rng):
+    if f.entities is not None or any("save_to" in r.cells for r, _ in f.walk()):
+        return None
+    f.entities = {"list_name": "ents", "label": "concat('a', 'b')"}
+    q = Row("q", "text", fresh(f, "svq"), {"label": "L", "save_to": "prop1"})
+    node = q
+    for k in range(rng.choice([0, 1, 1, 2, 3])):
+        node = Row("group", "begin group", fresh(f, f"svg{k}_"), {"label": "G"}, [node])
+    rep_ = Row("repeat", "begin repeat", fresh(f, "svr"), {"label": "R"}, [Row("q", "text", fresh(f, "svpad"), {"label": "p"}), node])
+    add_row_somewhere(f, rng, rep_)
+    return Exp(r"you can't create entities from repeats|save_to values for form fields outside of repeats", "row", row=q)
 
 
 @kind("generated-helper-name-collision", 3)
